@@ -12,6 +12,8 @@ fork decided by z3.  Anything a proxy cannot model raises Unmodelled (a
 BaseException, so that code under test cannot swallow it) -- never a silent
 concretisation.
 """
+import os
+import struct
 import time
 import itertools
 import z3
@@ -27,6 +29,10 @@ class Unmodelled(BaseException):
 
 class BudgetExceeded(BaseException):
     pass
+
+
+STATUS = {"fd": None}     # set by the worker pool: one status byte per worker process (S = inside a z3 call, P = in Python)
+TIMEOUT_LOG = []      # (per worker process) which exploration ran out of its per-path budget
 
 
 class PathTimeout(BaseException):
@@ -57,9 +63,11 @@ class Stats:
         self.refuted = 0
         self.incomplete = 0
         self.timeouts = 0
+        self.solver_timeouts = 0
 
     def add(self, o):
         self.timeouts += getattr(o, "timeouts", 0)
+        self.solver_timeouts += getattr(o, "solver_timeouts", 0)
         self.paths += o.paths
         self.aborted_paths += o.aborted_paths
         self.forks += o.forks
@@ -84,6 +92,7 @@ class Stats:
         s = cls()
         s.__dict__.update(d)
         s.timeouts = d.get("timeouts", 0)
+        s.solver_timeouts = d.get("solver_timeouts", 0)
         s.queries = dict(d["queries"])
         return s
 
@@ -107,8 +116,17 @@ class Explorer:
     # -- solver plumbing ----------------------------------------------
     def check(self, *extra):
         t = time.perf_counter()
-        r = self.solver.check(*extra)
-        self.stats.solver_s += time.perf_counter() - t
+        if STATUS["fd"] is not None:
+            # "inside the solver since <time>" (read by the parent: a z3 call that ignores its timeout gets the process stopped)
+            os.pwrite(STATUS["fd"], b"S" + struct.pack("d", time.time()), 0)
+        try:
+            r = self.solver.check(*extra)
+        finally:
+            if STATUS["fd"] is not None:
+                os.pwrite(STATUS["fd"], b"P", 0)
+        dt = time.perf_counter() - t
+        self.stats.solver_s += dt
+        self._path_solver_s = getattr(self, "_path_solver_s", 0.0) + dt
         self.stats.queries[str(r)] += 1
         return r
 
@@ -147,6 +165,7 @@ class Explorer:
                 self.new_alts = []
                 self.path_fresh = itertools.count()
                 self.solver.push()
+                self._path_solver_s = 0.0
                 old_handler = None
                 if self.path_timeout_s:
                     import signal
@@ -158,6 +177,10 @@ class Explorer:
                         signal.setitimer(signal.ITIMER_PROF, self.path_timeout_s)
                 try:
                     res = fn(self)
+                    if self.path_tainted and isinstance(res, dict):
+                        # a fork on this path was undecided or a product was abstracted (degree cap): a candidate from it is
+                        # SOFT -- reported only if the concrete replay confirms it, otherwise counted undecided
+                        res["_soft"] = True
                     results.append((list(self.trail), res))
                     self.stats.paths += 1
                 except Abort:
@@ -168,8 +191,18 @@ class Explorer:
                 except PathTimeout:
                     self.complete = False
                     self.stats.incomplete += 1
+                    if self._path_solver_s > 0.5 * self.path_timeout_s:
+                        # the budget went into z3 (a query that ignored its own timeout), not into the code under
+                        # test: the path is undecided, the exploration goes on
+                        self.stats.undecided += 1
+                        self.stats.solver_timeouts += 1
+                        self.stats.max_depth = max(self.stats.max_depth, len(self.trail))
+                        work.extend(self.new_alts)
+                        continue
                     self.abort_all = True
                     self.stats.timeouts += 1
+                    if len(TIMEOUT_LOG) < 5:
+                        TIMEOUT_LOG.append({"label": getattr(self, "label", None), "decisions": len(self.trail), "paths_before": self.stats.paths})
                 finally:
                     if old_handler is not None:
                         import signal
@@ -567,6 +600,128 @@ def int_pow(a, b):
     return uf("pow", INT, INT, INT)(a, b)
 
 
+# ---------------------------------------------------------------------------
+# degree cap: z3's non-linear arithmetic (nla / nlsat) ignores its own timeout on polynomials of high degree (a program
+# such as  z <- t*z*z  run for three steps gives degree 15: observed a factorisation that ran for 30 min and a model search
+# that allocated 64 GB).  A product whose polynomial degree would exceed DEG_CAP is therefore an UNINTERPRETED product
+# hmul(a, b) (arguments in a canonical order).  Sound for "valid" verdicts (what holds for every interpretation of hmul
+# holds for multiplication); a refutation on a path that used hmul is not trusted: the path is marked tainted, a candidate
+# from it is "soft" (reported only if the concrete replay against the real code confirms it, else counted undecided).
+# Integer terms: degree <= 2 (non-linear INTEGER arithmetic is where z3 ran away); real terms: degree <= 4.
+
+DEG_CAP = {"Int": 2, "Real": 4}
+_DEG = {}
+ABSTRACTED = {"count": 0}
+
+
+def degree(t):
+    k = t.get_id()
+    hit = _DEG.get(k)
+    if hit is not None:
+        return hit[1]
+    if z3.is_int_value(t) or z3.is_rational_value(t) or z3.is_algebraic_value(t):
+        d = 0
+    elif not z3.is_app(t):
+        d = 1
+    else:
+        kind = t.decl().kind()
+        ch = t.children()
+        if kind == z3.Z3_OP_MUL:
+            d = sum(degree(c) for c in ch)
+        elif kind in (z3.Z3_OP_ADD, z3.Z3_OP_SUB, z3.Z3_OP_UMINUS, z3.Z3_OP_TO_REAL, z3.Z3_OP_TO_INT):
+            d = max([degree(c) for c in ch] or [0])
+        elif kind == z3.Z3_OP_ITE:
+            d = max(degree(ch[1]), degree(ch[2]))
+        else:
+            d = 1           # variables, uninterpreted applications, div/mod ...: atoms
+    if len(_DEG) > 200000:
+        _DEG.clear()
+    _DEG[k] = (t, d)        # the term is kept alive with its entry: z3 recycles the ids of freed terms
+    return d
+
+
+_CANON = {}
+
+
+def canon_key(t):
+    k = t.get_id()
+    hit = _CANON.get(k)
+    if hit is not None:
+        return hit[1]
+    if not z3.is_app(t) or t.num_args() == 0:
+        r = t.sexpr()
+    else:
+        name = t.decl().name()
+        parts = [canon_key(c) for c in t.children()]
+        if t.decl().kind() in (z3.Z3_OP_ADD, z3.Z3_OP_MUL, z3.Z3_OP_AND, z3.Z3_OP_OR, z3.Z3_OP_EQ, z3.Z3_OP_DISTINCT) or name == "hmul":
+            parts.sort()
+        r = "(%s %s)" % (name, " ".join(parts))
+        if len(r) > 4000:
+            import hashlib
+            r = "#" + hashlib.sha1(r.encode()).hexdigest()
+    if len(_CANON) > 100000:
+        _CANON.clear()
+    _CANON[k] = (t, r)
+    return r
+
+
+def _factors(t, atoms, coeff):
+    """Multiplicative decomposition of a term: numeric coefficient (list cell) and atomic factors."""
+    if z3.is_int_value(t):
+        coeff[0] = coeff[0] * t.as_long()
+        return
+    if z3.is_rational_value(t):
+        from fractions import Fraction
+        coeff[0] = coeff[0] * Fraction(t.numerator_as_long(), t.denominator_as_long())
+        return
+    if z3.is_app(t):
+        if t.decl().kind() == z3.Z3_OP_MUL or t.decl().name() == "hmul":
+            for c in t.children():
+                _factors(c, atoms, coeff)
+            return
+    atoms.append(t)
+
+
+def capped_mul(a, b):
+    """a * b on z3 terms of one arithmetic sort.  Above the degree cap the product is uninterpreted, in an
+    associative-commutative normal form: the atomic factors of both operands (looking through * and hmul) sorted
+    structurally and chained as hmul(f1, hmul(f2, ...)), so that (t*z)*z, t*(z*z) and z*(t*z) are one term."""
+    da, db = degree(a), degree(b)
+    so = a.sort()
+    cap = DEG_CAP["Int" if so == INT else "Real"]
+    abstracted = any(z3.is_app(x) and x.decl().name() == "hmul" for x in (a, b))
+    if not abstracted and (da == 0 or db == 0 or da + db <= cap):
+        return a * b
+    atoms, coeff = [], [1]
+    _factors(a, atoms, coeff)
+    _factors(b, atoms, coeff)
+    if coeff[0] == 0:
+        return z3.IntVal(0) if so == INT else z3.RealVal(0)
+    if len(atoms) <= 1 or sum(degree(x) for x in atoms) <= cap:
+        r = None
+        for x in atoms:
+            r = x if r is None else r * x
+    else:
+        ABSTRACTED["count"] += 1
+        if CUR is not None:
+            CUR.path_tainted = True
+        # a structural order modulo associativity/commutativity of + and * (term ids are recycled and depend on when a
+        # term was built; z3's own argument order depends on ids too)
+        atoms.sort(key=lambda x: canon_key(z3.simplify(x)))
+        h = uf("hmul", so, so, so)
+        r = atoms[-1]
+        for x in reversed(atoms[:-1]):
+            r = h(x, r)
+    if coeff[0] != 1:
+        c = z3.IntVal(int(coeff[0])) if so == INT and coeff[0] == int(coeff[0]) else z3.RealVal(str(coeff[0]))
+        if r is None:
+            return c
+        if c.sort() != r.sort():
+            r = z3.ToReal(r)
+        r = c * r
+    return r if r is not None else (z3.IntVal(1) if so == INT else z3.RealVal(1))
+
+
 def real_pow(a, b):
     """`**` in the real-number model: a small integral constant exponent is
     repeated multiplication (exact); anything else is uninterpreted."""
@@ -576,7 +731,7 @@ def real_pow(a, b):
         n = b1.as_long()
     elif z3.is_rational_value(b1) and b1.denominator_as_long() == 1:
         n = b1.numerator_as_long()
-    if n is not None and 0 <= n <= 8:
+    if n is not None and 0 <= n <= 8 and (n <= 1 or n * degree(a) <= DEG_CAP["Real"]):
         r = z3.RealVal(1)
         for _ in range(n):
             r = r * a
@@ -640,8 +795,8 @@ class SymNum:
     def __radd__(self, o): return self._bin(o, lambda a, b: a + b, True)
     def __sub__(self, o): return self._bin(o, lambda a, b: a - b)
     def __rsub__(self, o): return self._bin(o, lambda a, b: a - b, True)
-    def __mul__(self, o): return self._bin(o, lambda a, b: a * b)
-    def __rmul__(self, o): return self._bin(o, lambda a, b: a * b, True)
+    def __mul__(self, o): return self._bin(o, capped_mul)
+    def __rmul__(self, o): return self._bin(o, capped_mul, True)
 
     @staticmethod
     def _div(a, b):
